@@ -182,7 +182,11 @@ class Runner:
         f = rng.choice([f for f in U.child_fields(cls) if f.shape in ("tuple", "list")])
         self.counter += 1
         v = rng.choice([1, 2, self.counter])
-        mk = lambda: U.cls[f"{P}Leaf"](v=v, s="t", origin=O.build_origin(("no",)))  # noqa: E731
+        if rng.random() < 0.35:
+            # twin *containers* (equal by ==): receivers for replace whose position must survive a rollback
+            mk = lambda: U.cls[f"{P}List"](items=(), label=f"t{v}", origin=O.build_origin(("no",)))  # noqa: E731
+        else:
+            mk = lambda: U.cls[f"{P}Leaf"](v=v, s="t", origin=O.build_origin(("no",)))  # noqa: E731
         seq = [mk(), self.fresh(leaf_only=rng.random() < 0.5), mk()]
         if rng.random() < 0.5:
             seq.insert(rng.randrange(len(seq) + 1), self.fresh(leaf_only=True))
